@@ -52,7 +52,7 @@ func runC19(c *an.Ctx) {
 		return ""
 	}}
 	guardedBy(c, spec, scope, construction)
-	c.Floor("LOCK-4", 4)
+	c.Floor("LOCK-4", 2)
 
 	fi := p.Info(allow)
 	lf := p.LockFlowOf(allow)
